@@ -227,3 +227,55 @@ def _exit_context(self, ex, node, exc):
 C05MoreModels.call_repo_model = _keep_open_model2
 C05MoreModels.enter_context = _enter_context
 C05MoreModels.exit_context = _exit_context
+
+
+# ---- dictionaries handed out by a cache MAY BE the stored ones (MemoryFullCache(is_memory_shared=False)._read_data and
+# SimpleCache.__getitem__ return the stored dictionary itself): a result typed ``TStoredDict`` is registered when a callee contract
+# creates it; any mutation of a registered dictionary sets the ghost ``fc_entry_written`` ("a dictionary returned by the cache was
+# written to, i.e. the cached entry may have been modified").  ``d.copy()`` / ``dict(d)`` give an unregistered dictionary.
+from .values import TDict as PM_TDict  # noqa: E402
+
+ENTRY_WRITTEN = "fc_entry_written"
+_MUTATORS = ("update", "clear", "pop", "popitem", "setdefault", "__setitem__", "__delitem__")
+
+
+class TStoredDict(PM_TDict):
+    def fresh(self, st, hint):
+        r = super().fresh(st, hint)
+        st.ghost.setdefault("c05_store_alias_ids", set()).add(r.id)
+        return r
+
+
+def _is_store_alias(ex, v):
+    return isinstance(v, Ref) and v.id in ex.st.ghost.get("c05_store_alias_ids", ())
+
+
+def _mark_written(ex):
+    ex.st.ghost_set(ENTRY_WRITTEN, z3.BoolVal(True))
+
+
+def _setitem(self, ex, cont, key, v, lineno):
+    if _is_store_alias(ex, cont):
+        _mark_written(ex)
+    return NotImplemented
+
+
+_prev_delitem = C05MoreModels.delitem
+_prev_call_method = C05MoreModels.call_method
+
+
+def _delitem(self, ex, cont, key, lineno):
+    if _is_store_alias(ex, cont):
+        _mark_written(ex)
+    return _prev_delitem(self, ex, cont, key, lineno)
+
+
+def _call_method(self, ex, recv, name, args, kwargs, lineno):
+    if name in _MUTATORS and _is_store_alias(ex, recv):
+        _mark_written(ex)
+    return _prev_call_method(self, ex, recv, name, args, kwargs, lineno)
+
+
+C05MoreModels.setitem = _setitem
+C05MoreModels.delitem = _delitem
+C05MoreModels.call_method = _call_method
